@@ -22,6 +22,11 @@ fn describe(o: &MemoOutcome) -> &'static str {
     }
 }
 
+/// the three shapes of listed finding K22
+fn k22_shape(text: &str) -> bool {
+    text.matches("inside").count() >= 2 || text.contains("&&&") || (text.contains("binsof") && text.matches("with").count() >= 2)
+}
+
 pub fn check_memo(ctx: &Ctx, g: Grammar, src: &str, caps: &[usize], st: &mut Stats, from: &str) -> Result<(), Fail> {
     // the raw parsers take preprocessed text
     let text = match sv::pp_plain(src) {
@@ -65,6 +70,19 @@ pub fn check_memo(ctx: &Ctx, g: Grammar, src: &str, caps: &[usize], st: &mut Sta
                     st.known("K3");
                     st.count(&format!("K3-attributed divergences at capacity {:>4}", cap), 1);
                     st.class(&format!("K3 direction: unbounded {} / capacity {} {}", describe(&base), if cap <= 13 { "<=13" } else if cap <= 64 { "32-64" } else { ">=128" }, describe(&r)));
+                    continue;
+                }
+            }
+            // attribution to listed finding K22 (the same mechanism in the other direction): the unbounded table REJECTS a
+            // source of one of three shapes the grammar would accept (an inside chain, &&& in front of a conditional / inside
+            // operand, a chain of with clauses behind binsof), a bounded table happens to accept it, and with the recursion
+            // flags in the key every capacity rejects
+            if ctx.findings.is_known("C17", "K22") && base == MemoOutcome::Rejected && matches!(r, MemoOutcome::Accepted(_)) && k22_shape(&text) {
+                let (ra, _) = sv::raw_parse_budget(g, &text, Some(cap), true, Some(budget.saturating_mul(4)));
+                let (rb, _) = sv::raw_parse_budget(g, &text, None, true, Some(budget.saturating_mul(4)));
+                if ra == MemoOutcome::Rejected && rb == MemoOutcome::Rejected {
+                    st.known("K22");
+                    st.class("K22 direction: unbounded rejected / bounded accepted");
                     continue;
                 }
             }
@@ -125,6 +143,7 @@ impl Prop for C17 {
             Campaign { name: "small", kind: Kind::Random { quick: 2500, thorough: 40000 }, tape_len: 260 },
             Campaign { name: "regions", kind: Kind::Random { quick: 1500, thorough: 20000 }, tape_len: 160 },
             Campaign { name: "regions-small", kind: Kind::Random { quick: 10000, thorough: 100000 }, tape_len: 160 },
+            Campaign { name: "k22-shapes", kind: Kind::Random { quick: 800, thorough: 10000 }, tape_len: 60 },
         ]
     }
     fn run(&self, ctx: &Ctx, campaign: &str, t: &mut Tape, st: &mut Stats) -> Result<(), Fail> {
@@ -171,6 +190,44 @@ impl Prop for C17 {
                     caps.extend_from_slice(MID_CAPS);
                 }
                 check_memo(ctx, g, &text, &caps, st, from)?;
+            }
+            "k22-shapes" => {
+                // the three shapes of listed finding K22 with varied operands, every capacity: each divergence must match the
+                // signature of K22 (or of K3), anything else is a violation
+                let id = |t: &mut Tape| t.pick_str(&["a", "b1", "x_y", "sel", "q"]).to_string();
+                let num = |t: &mut Tape| t.pick_str(&["0", "1", "4'b1010", "8'hff", "'1"]).to_string();
+                let set = |t: &mut Tape| {
+                    let mut v = vec![if t.flip() { id(t) } else { num(t) }];
+                    if t.flip() {
+                        v.push(format!("[{}:{}]", num(t), num(t)));
+                    }
+                    if t.chance(1, 3) {
+                        v.push(id(t));
+                    }
+                    v.join(", ")
+                };
+                let text = match t.below(3) {
+                    0 => {
+                        let mut e = format!("{} inside {{{}}}", id(t), set(t));
+                        for _ in 0..1 + t.below(2) {
+                            e = format!("{} inside {{{}}}", e, set(t));
+                        }
+                        format!("module m; initial x = {}; endmodule\n", e)
+                    }
+                    1 => format!("module m; initial x = {} &&& {} ? {} inside {{{}}} : {}; endmodule\n", id(t), id(t), id(t), set(t), num(t)),
+                    _ => {
+                        let mut w = String::new();
+                        for _ in 0..2 + t.below(2) {
+                            w.push_str(&format!(" with ({})", id(t)));
+                        }
+                        format!("module m; covergroup cg; cross a, b {{ bins c = binsof({}){}; }} endgroup endmodule\n", id(t), w)
+                    }
+                };
+                let mut caps: Vec<usize> = MAIN_CAPS.to_vec();
+                caps.extend_from_slice(MID_CAPS);
+                caps.extend_from_slice(SMALL_CAPS);
+                caps.extend_from_slice(&[4, 44, 48, 512]);
+                check_memo(ctx, Grammar::Sv, &text, &caps, st, "K22 shapes")?;
             }
             "regions-small" => {
                 // one-line modules and compilation-unit items between `begin_keywords / `end_keywords: small enough for
@@ -240,6 +297,24 @@ impl Prop for C17 {
 /// witness {"kind":"memo","source":…, "capacity": n}: still fails iff the result at that capacity differs from the
 /// unbounded table's and the two agree once the recursion flags are part of the key
 pub fn memo_witness(f: &crate::findings::Finding) -> Result<bool, Fail> {
+    if f.witness["kind"].as_str() == Some("memo_reverse") {
+        // {"kind":"memo_reverse","source":…,"capacity":n}: the unbounded table rejects, capacity n accepts, the
+        // recursion-aware key rejects under both
+        let src = f.witness["source"].as_str().unwrap_or("");
+        let cap = f.witness["capacity"].as_u64().unwrap_or(8) as usize;
+        let (a, _) = sv::raw_parse_budget(Grammar::Sv, src, None, false, Some(2_000_000));
+        let (b, _) = sv::raw_parse_budget(Grammar::Sv, src, Some(cap), false, Some(2_000_000));
+        if a == b {
+            return Ok(false);
+        }
+        let (ra, _) = sv::raw_parse_budget(Grammar::Sv, src, Some(cap), true, Some(8_000_000));
+        let (rb, _) = sv::raw_parse_budget(Grammar::Sv, src, None, true, Some(8_000_000));
+        return if a == MemoOutcome::Rejected && matches!(b, MemoOutcome::Accepted(_)) && ra == MemoOutcome::Rejected && rb == MemoOutcome::Rejected {
+            Ok(true)
+        } else {
+            Err(Fail::new(format!("witness of {} diverges but not in the listed way", f.id), json!({"source": src, "capacity": cap})))
+        };
+    }
     {
         if f.witness["kind"].as_str() != Some("memo") {
             return Ok(false);
